@@ -27,6 +27,28 @@ func c07Rounds(c *Ctx) int { return tierN(c, 16, 64) }
 
 var c07Configs = []struct{ g, procs int }{{2, 2}, {8, 2}, {32, 2}, {2, 16}, {8, 16}, {32, 16}, {64, 16}, {16, 4}}
 
+const c07DirectedDoc = `{"nums":[5,3,9,1,7,2,8,4,6,0,15,13,19,11,17,12,18,14,16,10],"strs":["e","c","i","a","g","b","h","d","f","z","y","x","w"],"recs":[{"k":5,"s":"e"},{"k":3,"s":"c"},{"k":9,"s":"i"},{"k":1,"s":"a"},{"k":7,"s":"g"},{"k":2,"s":"b"},{"k":8,"s":"h"},{"k":4,"s":"d"},{"k":6,"s":"f"},{"k":0,"s":"z"},{"k":15,"s":"y"},{"k":13,"s":"x"},{"k":19,"s":"w"}],"nested":[[3,1,2],[9,7,8],[6,4,5]],"objs":{"a":{"p":1},"b":{"q":2}}}`
+
+// c07Directed: every function that orders, reverses or merges, applied to every
+// way of handing it an array of the shared document (or a literal of the shared
+// Expression) without copying it: in-place work shows as a write-write race,
+// as wrong results, and as a changed document / expression.
+func c07Directed() []string {
+	var out []string
+	wraps := []string{"%s", "%s[*]", "%s[:]", "%s[0:]", "%s[]", "%s[?`true`]", "to_array(%s)", "not_null(%s)", "(%s)", "%s | @", "[%s][0]", "{a: %s}.a", "%s || `[]`", "let $x = %s in $x", "map(&@, %s)"}
+	for _, w := range wraps {
+		nums := fmt.Sprintf(w, "nums")
+		strs := fmt.Sprintf(w, "strs")
+		recs := fmt.Sprintf(w, "recs")
+		lit := fmt.Sprintf(w, "`[5,3,9,1,7,2,8,4,6,0,15,13,19,11,17,12,18,14,16,10]`")
+		out = append(out, "sort("+nums+")", "sort("+strs+")", "sort("+lit+")", "reverse("+nums+")", "reverse("+lit+")",
+			"sort_by("+recs+", &k)[*].k", "sort_by("+recs+", &s)[*].s", "sort_by("+nums+", &@)", "max_by("+recs+", &k).k", "min_by("+recs+", &s).s",
+			"group_by("+recs+", &s) | keys(@) | sort(@)", nums+" | sort(@)", nums+" | reverse(@)")
+	}
+	out = append(out, "nested[*].sort(@)", "nested[*].reverse(@)", "nested[].sort_by(@, &@)", "sort(nested[0])", "merge(objs.a, objs.b)", "merge(objs, `{\"c\": 1}`)", "merge(`{\"c\": 1}`, objs.a)", "zip(nums, strs)[0]", "values(objs)[*].p", "from_items(items(objs.a))", "nums[::-1]", "nums[?@ > `5`]", "join(',', strs)", "sort(strs)[0]", "sort(keys(objs))")
+	return out
+}
+
 func c07Round(c *Ctx, idx int) {
 	cfg := c07Configs[idx%len(c07Configs)]
 	r := c.Rand("")
@@ -42,13 +64,26 @@ func c07Round(c *Ctx, idx int) {
 		}
 		godocs[i] = ref.ToGo(docs[i], ref.JSONNumber)
 	}
+	// document 0: unsorted homogeneous arrays without nulls, for the directed forms
+	docs[0], _ = ref.FromJSON(c07DirectedDoc)
+	godocs[0] = ref.ToGo(docs[0], ref.JSONNumber)
+	directed := c07Directed()
 	// expressions + sequential outcomes
 	var items []c07Item
 	nodeTypes := map[string]bool{}
-	for len(items) < 220 {
+	for len(items) < 220+len(directed) {
 		d := r.Intn(ndocs)
 		var text string
-		switch r.Intn(4) {
+		if len(items) < len(directed) {
+			text, d = directed[len(items)], 0
+			goto have
+		}
+		switch r.Intn(5) {
+		case 4:
+			// builders that sort / reverse / merge / reslice an array of the shared
+			// document or a literal held by the shared Expression (in-place work
+			// on shared memory is a write-write race between goroutines)
+			text = c.c06Expr(r, docs[d])
 		case 0:
 			text = gen.Pick(r, c15Forms)
 			d = (d / 2) * 2
@@ -59,6 +94,7 @@ func c07Round(c *Ctx, idx int) {
 			g := &gen.ExprGen{R: r, Root: docs[d], Funcs: 40, Lets: true, Arith: true}
 			text = ref.Print(g.Expr(docs[d], 3))
 		}
+	have:
 		if strings.Contains(text, "pad_") {
 			continue
 		}
@@ -195,7 +231,7 @@ func c07Round(c *Ctx, idx int) {
 func init() {
 	Register(&Property{
 		ID:            "C07",
-		Rule:          "worker built with the Go race detector; each round runs in a fresh process (lazy initialisation races once per process): ~220 expressions (forms that range Go maps, generated calls and core expressions; AST node types covered are counted) over 20 shared read-only documents are first evaluated sequentially, then G goroutines (G in {2,8,16,32,64}, GOMAXPROCS in {2,4,16}) are released from a barrier and run a seeded mix of Search(text, sharedDoc), Compile(text)+Search and sharedExpression.Search(sharedDoc), reading every result completely; refuting events: any race-detector report (counted and de-duplicated by the driver from GORACE logs), any call whose canonical outcome differs from the sequential outcome of the same call, a changed AST fingerprint of a shared Expression, a changed shared document; non-trivial = rounds and (expression, document) pairs exercised concurrently",
+		Rule:          "worker built with the Go race detector; each round runs in a fresh process (lazy initialisation races once per process): ~220 expressions (forms that range Go maps, generated calls, core expressions, and builders that sort/reverse/merge/reslice arrays of the shared document or literals of the shared Expression; AST node types covered are counted) over 20 shared read-only documents, plus ~220 directed forms (every ordering/reversing/merging function applied to every way of handing it an array of the shared document or a literal of the shared Expression without a copy), are first evaluated sequentially, then G goroutines (G in {2,8,16,32,64}, GOMAXPROCS in {2,4,16}) are released from a barrier and run a seeded mix of Search(text, sharedDoc), Compile(text)+Search and sharedExpression.Search(sharedDoc), reading every result completely; refuting events: any race-detector report (counted and de-duplicated by the driver from GORACE logs), any call whose canonical outcome differs from the sequential outcome of the same call, a changed AST fingerprint of a shared Expression, a changed shared document; non-trivial = rounds and (expression, document) pairs exercised concurrently",
 		MinNontrivial: 100,
 		Streams: []Stream{
 			{Name: "rounds", N: c07Rounds, Run: c07Round},
